@@ -339,6 +339,14 @@ def discharge(ex, res, keep_models, timeout_ms):
                 ob['status'] = 'refuted'
                 ob['note'] = vc.note
                 if keep_models and model is not None:
+                    try:
+                        from . import replay as RP
+                        if vc.goal is not None:
+                            m2 = RP.small_model(vc, ex, ex.c, ex.f, z3.Not(vc.goal))
+                            if m2 is not None:
+                                model = m2
+                    except Exception:
+                        pass
                     ob['model'] = model_summary(model, vc, ex)
                     try:
                         from . import replay as RP
